@@ -124,6 +124,7 @@ type exampleParser struct {
 	parse  func(filename, in string, opts ...participle.ParseOption) (any, error)
 	lex    func(in string) ([]lexer.Token, error)
 	valid  []string
+	str    func() string      // Parser.String()
 	nested func(n int) string // nesting depth n
 	flat   func(n int) string // n items, no nesting
 }
@@ -137,6 +138,7 @@ func mkExample[T any](name string, valid []string, nested, flat func(int) string
 			return v, err
 		},
 		lex:   func(in string) ([]lexer.Token, error) { return p.Lex("fn", strings.NewReader(in)) },
+		str:   func() string { return p.String() },
 		valid: valid, nested: nested, flat: flat,
 	}
 }
